@@ -136,7 +136,11 @@ func commandErrIsFatal(err error) bool {
 	// FSET (and other writable commands) may return errors that we need
 	// to ignore during the loading process. These errors may occur (though unlikely)
 	// due to the aof rewrite operation.
-	return !(err == errKeyNotFound || err == errIDNotFound)
+	// The same goes for a SETHOOK / SETCHAN that was logged while the rewrite
+	// was running and whose name has meanwhile been given to the other kind:
+	// the rewritten part of the file already holds the final definition.
+	return !(err == errKeyNotFound || err == errIDNotFound ||
+		err == errHookChannelSameName)
 }
 
 // flushAOF flushes all aof buffer data to disk. Set sync to true to sync the
